@@ -32,9 +32,10 @@
      - a K-frame addressed to CID c goes to channels[handle][c], keyed by the
        channel's own source CID
      - a credit packet for CID c goes to le_coc_channels[handle][c]; the four
-       places that file a channel there (LE initiator / acceptor, enhanced
-       initiator / acceptor) all use the channel's destination CID (the enhanced
-       acceptor used the source CID before fix D07).  [e_key] is the key a
+       places that file a channel there (LE / enhanced acceptor: when the request
+       is accepted; LE / enhanced initiator: when the response is processed, since
+       fix D09f) all use the channel's destination CID (the enhanced acceptor used
+       the source CID before fix D07).  [e_key] is the key a
        channel is filed under; Gen/C07Tables.v is regenerated from the source on
        every run and says which of source / destination each place uses.
 
